@@ -83,6 +83,12 @@ CLAIMS["C07"] = {
     "design_ref": "DESIGN.md section 4, C07",
     "note": "Trusted: Lean kernel + standard axioms (reals); zero mean / unit variance / independence of torch.randn, torch.rand (supported by 10^6-sample statistics in the evidence, never a violation alone); float arithmetic within the stated tolerances. Listed finding: SignalToNoiseRatio reports +inf for noise power below float32 eps (test-pinned).",
 }
+CLAIMS["C13"] = {
+    "technique": "Lean 4 theorems on the block-expansion and y = h.x + n models with the fading draws as inputs (block index arithmetic for all lengths, verbatim csi/noise, Rayleigh/Rician normalisation algebra); correspondence through re-seeded runs and exact rational evaluation of supplied-csi cases",
+    "text": "Unbounded theorems: h_exp[t] = h[t div T] for every length and coherence time including non-divisors, positions of one block share one coefficient, block indices stay below ceil(L/T), output has one entry per symbol; with supplied channel state and noise the output is exactly h.x + n element by element; |h|^2 of a Rayleigh coefficient is (z_r^2+z_i^2)/2, Rician line-of-sight and scattered powers K/(K+1) and 1/(K+1) sum to 1 with ratio K for every K >= 0. Tie: with x = 1 and zero noise the real channel's output is matched against the regenerated block coefficients and must follow the model's index pattern for L in {1,5,8,12,17} x coherence times incl. non-divisors and T > L x batch sizes; supplied csi/noise in complex128 for 1-D / 2-D / 4-D inputs, real and complex, compared with exact rational h.x+n; Rayleigh, Rician (K = 0, 3, 100) and log-normal coefficients and the noise stage in power and SNR mode (relative to the faded signal) compared with values rebuilt from the same seed.",
+    "design_ref": "DESIGN.md section 4, C13",
+    "note": "Trusted: Lean kernel + standard axioms; law and independence of the fading draws (gain statistics on 10^6 blocks recorded as support); the law cases are float evaluations of the definition (tests), the structure cases go through the exact model.",
+}
 
 NOT_YET = {}
 
